@@ -356,7 +356,7 @@ func DrawPlan(t *tape.Tape, data []byte) Plan {
 	defer t.End()
 	n := len(data)
 	p := Plan{Empty: map[int]int{}}
-	mode := t.Weighted("plan.mode", 2, 3, 4, 3, 4, 5)
+	mode := t.Weighted("plan.mode", 2, 3, 4, 3, 4, 5, 3)
 	switch {
 	case n == 0:
 		p.Mode = "empty-input"
@@ -400,6 +400,16 @@ func DrawPlan(t *tape.Tape, data []byte) Plan {
 			}
 			p.Cuts = append(p.Cuts, pos)
 		}
+	case mode == 6:
+		// line-aligned: every chunk ends right after a line feed (all of them, or a random subset)
+		p.Mode = "line-aligned"
+		den := 1 + t.Intn("plan.lines.den", 3)
+		for i := 0; i < n-1; i++ {
+			if data[i] == '\n' && (den == 1 || t.Intn("plan.lines", den) == 0) {
+				p.Cuts = append(p.Cuts, i+1)
+			}
+		}
+		p.Cuts = append(p.Cuts, n)
 	default:
 		p.Mode = "targeted"
 		hot := HotOffsets(data)
